@@ -43,9 +43,14 @@ def dataset(name, scale):
     """Deterministic clustered points.  Returns dict(ra, dec [deg], w, z, patch (row -> patch id)).
     Points come in pairs placed symmetrically about the patch centre with equal weights (so the
     centre recomputed from the data stays close to the given centre); every patch gets at least one
-    pair; all values are dyadic rationals; z on multiples of 1/128 that avoid the bin edges."""
+    pair; all values are dyadic rationals; z on multiples of 1/128 that avoid the bin edges.
+    Optional scale keys (large scales): "n_fixed" = size of the catalogs no workload touches (U, UR, R0; default n),
+    "wB_odd" = dataset B draws its weights from odd multiples of 1/8 (A: multiples of 1/4), so that no record of B
+    has the bit pattern of a record of A however many there are."""
     npatch = int(scale["npatch"])
-    n = int(scale["n"]) + (6 if name == "B" else 0) + (3 * int(scale["n"]) if name == "UR" else 0)
+    base = int(scale.get("n_fixed", scale["n"])) if name in ("U", "UR", "R0") else int(scale["n"])
+    n = base + (6 if name == "B" else 0) + (3 * base if name == "UR" else 0)
+    odd_w = bool(scale.get("wB_odd")) and name == "B"
     npairs = n // 2
     rng = np.random.RandomState(SEEDS[name] + 1000 * npatch + n)
     cent = centres(npatch)
@@ -67,6 +72,8 @@ def dataset(name, scale):
                 seen.add((k, -dx, -dy))
                 break
         wgt = rng.randint(1, 9) / 4.0
+        if odd_w:
+            wgt = (2 * int(round(wgt * 4)) + 1) / 8.0
         for t, sgn in enumerate((1.0, -1.0)):
             while True:
                 q = rng.randint(17, 128)
@@ -106,6 +113,12 @@ def Y():
     return _yaw
 
 
+def chunksize(name, scale):
+    """rows per chunk handed to the catalog writer; "cs_<dataset>" overrides "cs" (large scales: A and B are cut
+    into pieces of different sizes)"""
+    return int(scale.get("cs_" + name, scale["cs"]))
+
+
 def make_catalog(path, name, scale, overwrite):
     import pandas as pd
     yaw = Y()
@@ -115,7 +128,7 @@ def make_catalog(path, name, scale, overwrite):
     cc = AngularCoordinates(np.deg2rad(np.asarray(centres(scale["npatch"]), dtype="f8")))
     return yaw.Catalog.from_dataframe(path, df, ra_name="ra", dec_name="dec", weight_name="w", redshift_name="z",
                                       patch_centers=cc, overwrite=overwrite, max_workers=1,
-                                      chunksize=int(scale["cs"]))
+                                      chunksize=chunksize(name, scale))
 
 
 def config(bname):
